@@ -1,13 +1,207 @@
 /-
-  Avt.Spec.C04 — oracle of property C04 (decidable predicates evaluated on implementation states;
-  the same definitions the theorems in Avt/Props/C04.lean are stated with).
+  Avt.Spec.C04 — oracle of property C04 (printing, auto-wrap, insert mode, charsets): decidable
+  definitions evaluated on implementation states; the same definitions the theorems in
+  Avt/Props/C04.lean are stated with.
+
+  Covered functions: `Print ch` and `Rep n`.  The specification is a total function
+  `printSpec : Terminal → Nat → Terminal` written with closed formulas over the rows of the view
+  (`take` / `drop` / `set` / `replicate`); it is *not* the model code (no rotations, no `Vec::insert`,
+  no checked arithmetic, no intermediate un-marking of rows).
 -/
 import Avt.Spec.Base
 
 namespace Avt.Spec.C04
 open Avt Avt.Spec
 
-def checkStep (_ev : StepEv) : List Verdict := []
+/-! ### The DEC special graphics set (fixed VT100 table, written out by hand) -/
+
+/-- VT100 line-drawing glyph of a code point: 0x60..0x7E map to
+    ♦ ▒ ␉ ␌ ␍ ␊ ° ± ␤ ␋ ┘ ┐ ┌ └ ┼ ⎺ ⎻ ─ ⎼ ⎽ ├ ┤ ┴ ┬ │ ≤ ≥ π ≠ £ ⋅ ; everything else is itself. -/
+def gfxRef (c : Nat) : Nat :=
+  match c with
+  | 0x60 => 0x2666 -- ♦
+  | 0x61 => 0x2592 -- ▒
+  | 0x62 => 0x2409 -- ␉
+  | 0x63 => 0x240C -- ␌
+  | 0x64 => 0x240D -- ␍
+  | 0x65 => 0x240A -- ␊
+  | 0x66 => 0x00B0 -- °
+  | 0x67 => 0x00B1 -- ±
+  | 0x68 => 0x2424 -- ␤
+  | 0x69 => 0x240B -- ␋
+  | 0x6A => 0x2518 -- ┘
+  | 0x6B => 0x2510 -- ┐
+  | 0x6C => 0x250C -- ┌
+  | 0x6D => 0x2514 -- └
+  | 0x6E => 0x253C -- ┼
+  | 0x6F => 0x23BA -- ⎺
+  | 0x70 => 0x23BB -- ⎻
+  | 0x71 => 0x2500 -- ─
+  | 0x72 => 0x23BC -- ⎼
+  | 0x73 => 0x23BD -- ⎽
+  | 0x74 => 0x251C -- ├
+  | 0x75 => 0x2524 -- ┤
+  | 0x76 => 0x2534 -- ┴
+  | 0x77 => 0x252C -- ┬
+  | 0x78 => 0x2502 -- │
+  | 0x79 => 0x2264 -- ≤
+  | 0x7A => 0x2265 -- ≥
+  | 0x7B => 0x03C0 -- π
+  | 0x7C => 0x2260 -- ≠
+  | 0x7D => 0x00A3 -- £
+  | 0x7E => 0x22C5 -- ⋅
+  | _ => c
+
+/-- translation through a character set, against the reference table -/
+def translateRef (cs : Charset) (c : Nat) : Nat :=
+  match cs with
+  | .ascii => c
+  | .drawing => gfxRef c
+
+/-- the character set in use: G0 unless G1 was shifted in -/
+def activeSet (t : Terminal) : Charset := if t.activeCharset = 0 then t.charsets.1 else t.charsets.2
+
+/-- the glyph a printable character is written as -/
+def glyph (t : Terminal) (ch : Nat) : Nat := translateRef (activeSet t) ch
+
+/-! ### Vocabulary on rows -/
+
+def markWrapped (l : Line) : Line := { l with wrapped := true }
+def clearWrapped (l : Line) : Line := { l with wrapped := false }
+
+/-- a fresh row: `cols` spaces in the given pen, not soft-wrapped -/
+def blankRow (cols : Nat) (pen : Pen) : Line := ⟨List.replicate cols ⟨0x20, pen⟩, false⟩
+
+/-- the rows with `f` applied to row `r`; every other row is untouched -/
+def onRow (v : List Line) (r : Nat) (f : Line → Line) : List Line :=
+  match v[r]? with
+  | some l => v.set r (f l)
+  | none => v
+
+/-- overwrite: only cell `c` changes -/
+def putCell (c : Nat) (cell : Cell) (l : Line) : Line := { l with cells := l.cells.set c cell }
+
+/-- insert: the cells from `c` on shift right by one, the last one is dropped -/
+def insertCell (c : Nat) (cell : Cell) (l : Line) : Line :=
+  { l with cells := l.cells.take c ++ [cell] ++ (l.cells.drop c).dropLast }
+
+/-- the buffer with `f` applied to row `r` of the view -/
+def bufOnRow (b : Buffer) (r : Nat) (f : Line → Line) : Buffer := { b with view := onRow b.view r f }
+
+/-! ### The scroll caused by wrapping on the bottom margin
+
+Rows `top..=bot` move up by one: row `top` leaves the region (into the scrollback when the region
+starts at row 0, lost otherwise), rows `top+1..=bot` become rows `top..=bot-1` *with their wrap
+marks*, a fresh row in the current pen appears at `bot`; rows outside the region stay, except
+that the row just above a region that does not start at row 0 loses its wrap mark (its
+continuation is gone).  The scrollback is flagged for trimming. -/
+def scrollRegionUp1 (b : Buffer) (top bot : Nat) (pen : Pen) : Buffer :=
+  let v := b.view
+  { b with
+    sb := b.sb ++ (if top = 0 then v.take 1 else []),
+    view := onRow (v.take top) (top - 1) clearWrapped
+              ++ (v.take (bot + 1)).drop (top + 1)
+              ++ [blankRow b.cols pen]
+              ++ v.drop (bot + 1),
+    trimNeeded := true }
+
+/-- rows `a..=b` reported as changed -/
+def dirtyRange (d : List Bool) (a b : Nat) : List Bool :=
+  d.take a ++ List.replicate (b + 1 - a) true ++ d.drop (b + 1)
+
+/-! ### Print -/
+
+/-- the deferred wrap (taken when auto-wrap is on and a wrap is pending): column 0 of the next row;
+    the row left behind is marked soft-wrapped; on the bottom margin the region scrolls instead of
+    the cursor moving; on the last row below the region nothing moves and nothing is marked. -/
+def wrapStep (t : Terminal) : Terminal :=
+  let r := t.cursor.row
+  if r = t.bottomMargin then
+    { t with
+      cursor := { t.cursor with col := 0 },
+      pendingWrap := false,
+      buffer := scrollRegionUp1 (bufOnRow t.buffer r markWrapped) t.topMargin t.bottomMargin t.pen,
+      dirtyLines := dirtyRange t.dirtyLines t.topMargin t.bottomMargin }
+  else if r + 1 < t.rows then
+    { t with
+      cursor := { t.cursor with col := 0, row := r + 1 },
+      pendingWrap := false,
+      buffer := bufOnRow t.buffer r markWrapped }
+  else
+    { t with cursor := { t.cursor with col := 0 }, pendingWrap := false }
+
+/-- writing glyph `g` at the cursor -/
+def putStep (t : Terminal) (g : Nat) : Terminal :=
+  let cell : Cell := ⟨g, t.pen⟩
+  let r := t.cursor.row
+  let c := t.cursor.col
+  let dirty := t.dirtyLines.set r true
+  if c + 1 ≥ t.cols then
+    -- last column (or wrap pending with auto-wrap off): the last cell is overwritten
+    let b := bufOnRow t.buffer r (putCell (t.cols - 1) cell)
+    if t.autoWrapMode then
+      { t with buffer := b, dirtyLines := dirty, cursor := { t.cursor with col := t.cols },
+               pendingWrap := true }
+    else
+      { t with buffer := b, dirtyLines := dirty }
+  else
+    { t with
+      buffer := bufOnRow t.buffer r (if t.insertMode then insertCell c cell else putCell c cell),
+      dirtyLines := dirty,
+      cursor := { t.cursor with col := c + 1 },
+      pendingWrap := false }
+
+/-- **C04, Print**: the terminal after printing `ch` -/
+def printSpec (t : Terminal) (ch : Nat) : Terminal :=
+  putStep (if t.autoWrapMode && t.pendingWrap then wrapStep t else t) (glyph t ch)
+
+/-! ### REP -/
+
+/-- the character left of the cursor (in the wrap-pending position: the last column's) -/
+def charLeftOfCursor (t : Terminal) : Nat :=
+  match t.buffer.view[t.cursor.row]? with
+  | some l =>
+    match l.cells[t.cursor.col - 1]? with
+    | some c => c.ch
+    | none => 0x20
+  | none => 0x20
+
+/-- `k` prints of the same character, as if typed -/
+def printTimes (ch : Nat) : Nat → Terminal → Terminal
+  | 0, t => t
+  | k + 1, t => printTimes ch k (printSpec t ch)
+
+/-- **C04, REP n** -/
+def repSpec (t : Terminal) (n : Nat) : Terminal :=
+  if t.cursor.col = 0 then t else printTimes (charLeftOfCursor t) (max n 1) t
+
+/-! ### Oracle -/
+
+/-- the functions this specification covers -/
+def specFun (t : Terminal) (f : Function) : Option Terminal :=
+  match f with
+  | .print ch => some (printSpec t ch)
+  | .rep n => some (repSpec t n)
+  | _ => none
+
+def covered : Function → Bool
+  | .print _ => true
+  | .rep _ => true
+  | _ => false
+
+/-- does the run really exercise the property?  (evidence counter only: a `Rep` at column 0 is the
+    identity, everything else writes a cell) -/
+def nontrivialRun (t : Terminal) (fs : List Function) : Bool :=
+  fs.any (fun f => match f with | .print _ => true | _ => false) || t.cursor.col != 0
+
+def checkStep (ev : StepEv) : List Verdict :=
+  if ev.funs.isEmpty || !ev.funs.all covered then [] else
+  match foldSpec specFun ev.funs ev.prev.terminal with
+  | none => []
+  | some expected =>
+    [check "C04.printSpec: state after Print/Rep run differs from the specification"
+       (nontrivialRun ev.prev.terminal ev.funs)
+       (ev.next.terminal == afterCall ev.kind expected)]
 
 def checkNew (_cols _rows : Nat) (_lim : Option Nat) (_st : Vt) : List Verdict := []
 
